@@ -27,7 +27,7 @@ PINNED_ENV = {
 }
 
 EXIT_OK, EXIT_VIOLATION, EXIT_HARNESS = 0, 1, 2
-CAMPAIGN_WALL = {"quick": 600.0, "thorough": 5400.0}
+CAMPAIGN_WALL = {"quick": 420.0, "thorough": 4200.0}
 
 
 # --------------------------------------------------------------------------------------
